@@ -1,9 +1,9 @@
 """C09 — type-checked installation refuses every structurally different signature."""
 import core
 
-RULE = ("family of 30 function-pointer types around `fn(i32, &u8) -> i64`, each differing from it in exactly one respect (one parameter "
+RULE = ("family of 34 function-pointer types around `fn(i32, &u8) -> i64`, each differing from it in exactly one respect (one parameter "
         "fewer/more, one parameter type x4, return type x4, & -> &mut, & -> *const, *const -> *mut, parameter order, nested fn types in a "
-        "parameter and in the return, unit return, unsafe, extern \"C\", unsafe extern \"C\", unsafe extern \"system\", and three pairs of types whose names differ only in the module path: ma::Rs / mb::Rs as return, &ma::Cfg / &mb::Cfg as parameter, std::fmt::Result / std::io::Result<()>) plus two lifetime "
+        "parameter and in the return, unit return, unsafe, extern \"C\", unsafe extern \"C\", unsafe extern \"system\", and three pairs of types whose names differ only in the module path: ma::Rs / mb::Rs as return, &ma::Cfg / &mb::Cfg as parameter, std::fmt::Result / std::io::Result<()>; Qty<'m'> / Qty<'s'> (char const-generic arguments are spelled with apostrophes, like lifetimes); two 40-element tuple types of > 400 bytes of name that differ only in the middle) plus two lifetime "
         "re-spellings; EVERY ordered pair (target type i, replacement type j) through every macro form carrying a type (func! long form, "
         "func!(fn (f)(..) -> r), func!(func_info: ..), unsafe{}/extern forms, closure!, fake! with and without times), plus null target / "
         "null replacement / typed+unchecked mixes per member, plus 20 async output-type pairs and 7 hand-written poll functions given to the checked async installer (only `fn() -> Poll<T>` with the right T fits; extra parameter, &mut parameter, unsafe, extern \"C\", other T, closure are refused). Structural equality is known by "
